@@ -43,12 +43,39 @@ static void work_b(long lo, long hi, struct res *r, void *arg) { (void)arg;
 static void work_c(long lo, long hi, struct res *r, void *arg) { (void)arg;
     for (long x = lo; x < hi; x++) { int i = (int)(x / 24), j = (int)(x % 24); if (j <= i) continue; uint8_t m[32] = {0}; m[17 + i / 8] |= (uint8_t)(1 << (i % 8)); m[17 + j / 8] |= (uint8_t)(1 << (j % 8)); for (int si = 0; si < 3; si++) one(&SEC[si], m, r, (uint64_t)x + 200000 + (uint64_t)si * 1000); } }
 
+/* passwords with one accented letter at every offset, composed and decomposed spelling: the KDF must be
+ * given NFKD(password) without terminator, so both spellings give the same call and the same seed */
+static void password_sweep(struct res *r) {
+    static const int LENS[] = { 2, 3, 7, 8, 9, 10, 15, 16, 17, 23, 24, 25, 31, 32, 33, 40, 63, 64, 65 };
+    for (unsigned li = 0; li < sizeof LENS / sizeof *LENS; li++) for (int off = 0; off + 2 <= LENS[li]; off++) for (int kind = 0; kind < 3; kind++) {
+        /* kind 0: e-acute (2-byte NFC, 3-byte NFD); 1: half-width katakana KA (3 bytes, compatibility-decomposes to full-width); 2: Hangul syllable GAG (3 bytes NFC, 9 bytes NFD) */
+        static const char *NFC_[3] = { "\xC3\xA9", "\xEF\xBD\xB6", "\xEA\xB0\x81" };
+        int L = LENS[li]; size_t cl = strlen(NFC_[kind]); if (off + (int)cl > L) continue;
+        char pw[128]; memset(pw, 'a', (size_t)off); memcpy(pw + off, NFC_[kind], cl); memset(pw + off + cl, 'b', (size_t)L - (size_t)off - cl); pw[L] = 0;
+        char nf[256]; size_t nl = u_nfkd(pw, nf, sizeof nf - 1);
+        char rep[400], hx[300]; hex(pw, (size_t)L, hx); snprintf(rep, sizeof rep, "pw %s", hx);
+        uint8_t out[2][32];
+        for (int spelling = 0; spelling < 2; spelling++) {
+            polyseed_data *s = seed_from_ref(&SEC[2]); r->calls++;
+            env_clear_log();
+            polyseed_crypt(s, spelling ? nf : pw); r->calls++; r->cases++;
+            if (E.n_kdf != 1 || E.kdf.pwlen != nl || memcmp(E.kdf.pw, nf, nl)) { res_viol(r, "c12:password-normalisation", rep, "password of %d bytes with a non-ASCII character at offset %d (%s spelling): the KDF received %zu bytes, NFKD(password) has %zu (or the bytes differ)", L, off, spelling ? "decomposed" : "composed", E.kdf.pwlen, nl); polyseed_free(s); goto next; }
+            polyseed_store(s, out[spelling]); polyseed_free(s);
+        }
+        if (memcmp(out[0], out[1], 32)) { res_viol(r, "c12:password-equivalence", rep, "canonically equivalent spellings of a password encrypt the same seed differently"); continue; }
+        r->validated += 2; r->cls[0] += 2;
+        next:;
+    }
+    res_sample(r, "passwords a..a<accented>b..b of 2..65 bytes with the accented character at every offset, composed and decomposed");
+}
+
 int main(int argc, char **argv) {
     int a = common_args(argc, argv);
     ref_init(VERIF_ROOT); sec_mark_initial(); env_init(); inject(0); polyseed_enable_features(7);
     struct res *r = calloc(1, sizeof *r);
     memset(&SEC[0], 0, sizeof(rseed)); memset(SEC[1].secret, 0xFF, 19); SEC[1].secret[18] = 0x3F; SEC[1].birthday = 1023; SEC[1].features = 7;
     for (int i = 0; i < 19; i++) SEC[2].secret[i] = (uint8_t)(0xA5 ^ (i * 13)); SEC[2].secret[18] &= 0x3F; SEC[2].birthday = 600; SEC[2].features = 16 | 2;
+    if (a < argc && !strcmp(argv[a], "pw")) { password_sweep(r); for (int i = 0; i < r->nviol; i++) printf("REPRODUCED %s: %s\n", r->v[i].key, r->v[i].msg); return r->nviol ? 1 : 0; }
     if (a < argc && !strcmp(argv[a], "case")) {
         rseed s; parse_rseed(argv[a + 1], atoi(argv[a + 2]), atoi(argv[a + 3]), &s); uint8_t m[32]; unhexn(argv[a + 4], m, 32);
         one(&s, m, r, 0); for (int i = 0; i < r->nviol; i++) printf("REPRODUCED %s: %s\n", r->v[i].key, r->v[i].msg); return r->nviol ? 1 : 0;
@@ -57,5 +84,6 @@ int main(int argc, char **argv) {
     par_run(3L * 32 * 256, work_a, NULL, r); out_part("every mask byte position x 256 values x 3 secrets", r, CLS, "");
     memset(r, 0, sizeof *r); par_run(64L * 256, work_b, NULL, r); out_part("byte 18: all 64 secret values x all 256 mask values", r, CLS, "the 150-bit truncation corner");
     memset(r, 0, sizeof *r); par_run(24L * 24, work_c, NULL, r); out_part("all pairs of single mask bits in bytes 17-19 x 3 secrets", r, CLS, "");
+    memset(r, 0, sizeof *r); password_sweep(r); out_part("passwords with a non-ASCII character at every offset, both spellings", r, CLS, "");
     out_end(); return 0;
 }
